@@ -187,6 +187,7 @@ def st_perm_case(draw):
             "lower": lower, "comma": use_comma, "bk": bk, "gens": gens,
             "antisym_result": draw(st.booleans()),
             "give_targets": draw(st.integers(0, 4)) != 0,
+            "denom": draw(st.sampled_from([0, 0, 0, 1, 2])),
             "split": ([draw(st.integers(0, 7)),
                        *draw(st.sampled_from([(1, 2), (1, 3), (2, 1),
                                               (-1, 2)]))]
@@ -199,6 +200,22 @@ def run_perm(case, r):
     tl = upper + lower
     targets = tuple(sorted(syms(tl), key=idx_key))
     terms = [build_term(t) for t in case["terms"]]
+    if case.get("denom"):
+        # an orbital-energy denominator (e_v - e_o) or (e_v + e_v' - e_o -
+        # e_o') per term, built from labels of the term
+        from adcgen.sympy_objects import NonSymmetricTensor
+        for k, t in enumerate(case["terms"]):
+            lbls = sorted(term_label_count(t))
+            occ = [l for l in lbls if label_class(l)[0] == "occ"]
+            virt = [l for l in lbls if label_class(l)[0] == "virt"]
+            if not occ or not virt or terms[k] == 0:
+                continue
+            n = 2 if (case["denom"] == 2 and len(occ) >= 2
+                      and len(virt) >= 2) else 1
+            den = Add(*[NonSymmetricTensor("e", (sym(l),)) for l in virt[:n]]) \
+                - Add(*[NonSymmetricTensor("e", (sym(l),)) for l in occ[:n]])
+            terms[k] = terms[k] / den
+            r.cls("perm_with_denominator")
     terms = [t for t in terms if t != 0]
     if not terms:
         raise BadCase("zero")
@@ -241,7 +258,12 @@ def run_perm(case, r):
             args[int(k_) % len(args)] = c1 * t_ + (1 - c1) * rebuild(t_, mp)
             expr = Add(*args)
             r.cls("split_term")
-    e = Expr(expr)
+    has_denom = any(isinstance(a, Pow) and a.args[1].is_negative and
+                    isinstance(a.args[0], Add) for a in S(expr).atoms(Pow))
+    # with an orbital-energy denominator the Einstein convention cannot tell
+    # the free indices (they occur in numerator and denominator): such
+    # expressions carry explicit target indices, as in the library itself
+    e = Expr(expr, target_idx=list(targets)) if has_denom else Expr(expr)
     kw = {"bra_ket_sym": case["bk"],
           "antisymmetric_result_tensor": case["antisym_result"]}
     if case["give_targets"] and tl:
@@ -291,7 +313,7 @@ def run_perm(case, r):
             break
     # assumptions / symbolic sanity: terms of the parts are terms of input
     in_terms = set(Add.make_args(e.sympy))
-    for key, sub in parts.items():
+    for key, sub in ({} if has_denom else parts).items():
         for t in Add.make_args(S(getattr(sub, "sympy", sub))):
             if t != 0 and t not in in_terms:
                 r.fail("perm/foreign_term", f"{t} not a term of {e}")
